@@ -207,7 +207,16 @@ pub fn gen_binary(args: &Args) {
     let mut id = 1u64;
     let pick: Vec<&(String, String)> = all.iter().filter(|(k, t)| t.len() < 2000 && !k.starts_with("deep") && !k.starts_with("many")).collect();
     let step = (pick.len() / (n as usize).max(1)).max(1);
+    let mut w = Worker::spawn(Duration::from_secs(30));
+    let mut skipped = 0u64;
     for (kind, text) in pick.iter().step_by(step).map(|x| (&x.0, &x.1)) {
+        // the binary has no instruction budget: a text whose evaluation is still running after two million
+        // instructions under the hooks (a loop the program itself spells out) is not given to it
+        let pre = w.eval(text, &RunOpts { budget: Some(2_000_000), ..Default::default() });
+        if pre["obs"]["class"] == "Budget" {
+            skipped += 1;
+            continue;
+        }
         for mode in ["file", "prompt"] {
             let path = format!("{dir}/in_{id}.nl");
             std::fs::write(&path, text).unwrap();
@@ -235,4 +244,5 @@ pub fn gen_binary(args: &Args) {
             id += 1;
         }
     }
+    eprintln!("{}", json!({"skipped_still_running_after_2M_instructions": skipped}));
 }
